@@ -59,3 +59,23 @@ check(
     level_note="trusted: long double reference DFT; the harness's own computation of the overlap-add weight; gcc/libm",
     assumptions=["STFT grid limited to the listed nfft/window kinds; kaiser periodic variant emulated as the first n points of kaiser(n+1)"],
 )
+
+check(
+    "C03",
+    runs=[dict(harness="C03_arith", flavour="plain"),
+          dict(harness="C03_arith", flavour="asan", tiers=("quick", "thorough"))],
+    rule=("random programs of 1..6 operator applications over a pool of two real and two complex arrays (length 0..64 mostly, sampled "
+          "to 10^4; values from {0,-0,+-1,+-i, log-uniform 1e-100..1e100}); 34 statement kinds cover every accepted operator x operand "
+          "type combination (array/array, array/scalar, scalar/array, compound, aliasing a op= a, a = a op a, unary, copy). One "
+          "evaluation = one operator application judged element-wise against the long-double field formula (4*eps*M) with bitwise "
+          "operand snapshots; plus mask/index-list selection, concatenation, zeropad and length-mismatch cases. non-trivial = "
+          "non-empty arrays; distinct = hash of (combination, operator, length, leading operand bits)."),
+    min_distinct={"quick": 20000, "thorough": 300000},
+    technique="runtime monitor: per-operation scalar interpreter in long double complex + bitwise value-semantics snapshots, repeated under ASan/UBSan",
+    level_text=("Each operator application of the generated programs is compared with the textbook formula evaluated in extended "
+                "precision and every operand is compared bitwise with its snapshot; the same workload is repeated under "
+                "AddressSanitizer+UBSan. Held on the applications counted in the evidence."),
+    level_note="trusted: long double arithmetic; the result-type table is enforced by static_assert when the harness is compiled",
+    assumptions=["arr_int arithmetic and magnitudes beyond 1e+-100 are not claimed (skipped and counted)",
+                 "combinations the headers reject at compile time (complex into real compound assignment) cannot be observed at run time"],
+)
